@@ -32,7 +32,8 @@ func (bt *btreeIndex) put(key []byte, pos *datafile.DataPos) *datafile.DataPos {
 	if bt.tree == nil {
 		return nil
 	}
-	it := &item{key: key, pos: pos}
+	// 索引持有 key 的独立拷贝, 调用方可继续复用其切片
+	it := &item{key: append([]byte(nil), key...), pos: pos}
 	oldItem := bt.tree.ReplaceOrInsert(it)
 	if oldItem == nil {
 		return nil
